@@ -141,7 +141,8 @@ class PathEnumerator:
             elif kind == 'raise':
                 res.append(Path(st.events, 'raise', st.exc, flags=st.flags))
             elif kind in ('break', 'continue'):
-                raise AnalysisError(f'{kind} outside loop in {getattr(self.fn, "name", "<lambda>")}')
+                # a loop body analysed on its own: the iteration ends here
+                res.append(Path(st.events + (Event(kind, None),), 'fall', flags=st.flags))
         return res
 
     # -- machinery -----------------------------------------------------------
